@@ -54,9 +54,18 @@ QUERY_BOUNDS_BASKET = {"all": {"round_abstract": 1, "dec_coeff_form": 1}, "quick
 QUICK_MARKET = "Step_Market(Sell|UpdateSellOrders|CancelSellOrder|AddAllowedDenom|RemoveAllowedDenom|GovSetFeeParams|GovSendFromFeePool|PruneSellOrders)"
 
 
+# base-keeper handlers that are cheap enough for two list elements (two credits / issuances /
+# issuers per message: duplicates inside one message are in range) in the quick tier; Send
+# and MintBatchCredits take minutes at list=2 and are left to the thorough tier
+QUICK_BASE_L2 = "Step_(Bridge|BridgeReceive|Cancel|Retire|CreateClass|CreateProject|CreateBatch|UpdateClassIssuers)"
+STEP_BOUNDS_L2 = {"all": {"round_abstract": 1},
+                  "quick": {"list": 2, "iter": 2, "exp_lo": -12, "exp_hi": 12, "digits": 45}}
+
+
 def step_runs():
     return [
         {"module": "ecocredit", "pkg": "./base/keeper", "harness": "Step_.*", "bounds": STEP_BOUNDS},
+        {"module": "ecocredit", "pkg": "./base/keeper", "harness": QUICK_BASE_L2, "bounds": STEP_BOUNDS_L2, "tiers": ["quick"]},
         {"module": "ecocredit", "pkg": "./basket/keeper", "harness": "Step_.*", "bounds": BASKET_BOUNDS,
          "timeout_ms": {"quick": 20000, "thorough": 60000}},
         {"module": "ecocredit", "pkg": "./marketplace/keeper", "harness": {"quick": QUICK_MARKET, "thorough": "Step_.*"},
@@ -88,6 +97,13 @@ PROPS = {
     "C08": {"title": "authorisation and sealed batches", "runs": step_runs(), "technique": STEP_TECH + "; role predicate on the pre-state for every successful path"},
     "C09": {"title": "genesis export/validate/re-import (kernel: state validators are handler invariants)", "runs": step_runs(),
             "technique": STEP_TECH + "; the real Validate() of each state type (merged to one formula) asserted on every written row"},
+    "C10": {"title": "handler-level determinism and statelessness (self-composition)",
+            "runs": [{"module": "ecocredit", "pkg": "./base/keeper", "harness": "C10_.*", "bounds": STEP_BOUNDS},
+                     {"module": "ecocredit", "pkg": "./basket/keeper", "harness": "C10_.*", "bounds": BASKET_BOUNDS,
+                      "timeout_ms": {"quick": 20000, "thorough": 60000}},
+                     {"module": "ecocredit", "pkg": "./marketplace/keeper", "harness": "C10_.*", "bounds": MARKET_BOUNDS},
+                     {"module": "data", "pkg": "./server", "harness": "C10_.*", "bounds": DATA_BOUNDS}],
+            "technique": "self-composition by go/ssa symbolic execution: every handler is executed twice from the same arbitrary pre-state, request and block time with map iteration order and wall clock chosen independently; final table contents, coins, events, outcome and response are compared and writes to per-process memory are reported + SMT"},
     "C11": {"title": "basket admission, oldest first, auto-retire", "runs": step_runs(),
             "technique": STEP_TECH + "; Take on finite-witness iterators ordered by the start-date index"},
     "C12": {"title": "expired orders refunded, begin block never fails", "runs": step_runs(), "technique": STEP_TECH + "; PruneSellOrders on finite-witness iterators"},
